@@ -431,7 +431,8 @@ func runOne(c liveCfg, seed uint64) outcome {
 func Supervise(d *leandrv.Driver, r *rng.R, res *report.Result, thorough bool) error {
 	res.Rule = "real workflow (sharded step, callback, timeout or step, connector, completion hook) on wrapped in-memory adapters with real goroutines: every k-th background adapter call fails with a non-cancellation error (k in {0,7,13,29}), " +
 		"the first step fails 0-3 times, 1-6 concurrent runs driven through Trigger/Callback/Pause/Resume/Await/Latest, optionally a second instance sharing the role scheduler; Stop after 10-40 ms while work is in flight; " +
-		"checked: no process Shutdown before Stop, Stop returns, all Shutdown after it, no background adapter call afterwards, every receiver/sender/connector consumer opened by a process closed, Run idempotent"
+		"checked: no process Shutdown before Stop, Stop returns, all Shutdown after it, no background adapter call afterwards, every receiver/sender/connector consumer opened by a process closed, Run idempotent; " +
+		"then 2-16 goroutines call Run at the same moment on a workflow of 9-323 processes: every caller's Run returns with all processes registered, Stop afterwards reaches all of them"
 	n := 12
 	if thorough {
 		n = 120
@@ -451,6 +452,22 @@ func Supervise(d *leandrv.Driver, r *rng.R, res *report.Result, thorough bool) e
 		for _, p := range o.problems {
 			sig := strings.SplitN(p, ": ", 2)[0]
 			res.Violate(report.Violation{Property: "C11", Oracle: "supervision", Signature: sig, Detail: p, Replay: map[string]any{"suite": "live-supervise", "config": c}})
+		}
+		res.Traces++
+	}
+	// several callers of Run at the same time
+	m := 6
+	if thorough {
+		m = 40
+	}
+	for it := 0; it < m; it++ {
+		c := runConcCfg{Statuses: rng.Pick(r, []int{6, 20, 40}), Parallel: rng.Pick(r, []int{1, 4, 8}), Callers: rng.Pick(r, []int{2, 4, 8, 16})}
+		ps, procs := runConcurrent(c)
+		res.Eval(1)
+		res.NonTrivial(fmt.Sprintf("%+v", c))
+		res.CountN("concurrent-run-processes", procs)
+		for _, p := range ps {
+			res.Violate(report.Violation{Property: "C11", Oracle: "run-idempotent-under-concurrency", Signature: strings.SplitN(p, ": ", 2)[0], Detail: p, Replay: map[string]any{"suite": "live-supervise", "concurrent_run": c}})
 		}
 		res.Traces++
 	}
